@@ -34,6 +34,7 @@ ASSUMPTIONS.update({
     "vis_interrupted": "matches!(e, EvalError::Interrupted)",
     "pop_to_toplevel": "Stack::pop_to_toplevel (PROVED in unit abort): leaves exactly the top-level frame, with no pending expressions, no pending block bindings, at most the base value and the base bindings block",
     "vcount_failed": "`tests.iter().filter(|(_, err, _)| err.is_some()).count()` is the number of entries whose verdict is an error",
+    "vcount_passed": "the same filter with `err.is_none()` counts the other entries",
     "vexit": "std::process::exit(code): the process ends with that status",
     "describe_tests": "describe_tests renders the summary (not verified: its numbers are computed from the same list)", "vf_print_string": "print!",
     "TestDefs": "-",
@@ -120,6 +121,10 @@ pub proof fn lemma_failed_empty()
 pub fn vcount_failed(ts: &Vec<(Symbol, Option<EvalError>, Option<Position>)>) -> (r: usize)
     ensures r == failed(ts@),
 { unimplemented!() }
+#[verifier::external_body]
+pub fn vcount_passed(ts: &Vec<(Symbol, Option<EvalError>, Option<Position>)>) -> (r: usize)
+    ensures r == ts@.len() - failed(ts@),
+{ unimplemented!() }
 /// the process ends here with status `code`; `failed_tests` is the ghost number of failed verdicts
 #[verifier::external_body]
 pub fn vexit(code: i32, Ghost(failed_tests): Ghost<nat>) -> !
@@ -194,6 +199,7 @@ def build(tier):
         props=c26))
     RT_RULES = [
         rw.simple("R2", r"summary\s*\.tests\s*\.iter\(\)\s*\.filter\(\|\(_, err, _\)\| err\.is_some\(\)\)\s*\.count\(\)", "vcount_failed(&summary.tests)"),
+        rw.simple("R2", r"summary\s*\.tests\s*\.iter\(\)\s*\.filter\(\|\(_, err, _\)\| err\.is_none\(\)\)\s*\.count\(\)", "vcount_passed(&summary.tests)"),
         rw.simple("R9", r"print!\(\"\{\}\", describe_tests\(&env, &summary\)\);", "vf_print_string(describe_tests(&env, &summary));"),
         rw.simple("R2", r"std::process::exit\(1\);", "vexit(1, Ghost(failed(summary.tests@)));"),
     ]
